@@ -80,7 +80,8 @@ class MachineFileParser():
             return self._evaluate_statement(node.inner)
         elif isinstance(node, mparser.ArrayNode):
             a = [self._evaluate_statement(arg) for arg in node.args.arguments]
-            assert all(isinstance(s, str) for s in a), 'for mypy'
+            if not all(isinstance(s, str) for s in a):
+                raise MesonException('Arrays in machine files can only hold strings.')
             return T.cast('T.List[str]', a)
         elif isinstance(node, mparser.IdNode):
             return self.scope[node.value]
